@@ -1603,3 +1603,138 @@ Lemma query_guard_sound_refuted_exploded :
   wire_count (extracted_object k_f q_exploded) = 0%nat /\ query_wire (extracted_object k_f q_exploded) = Some [] /\
   wire_count q_exploded = 1%nat.
 Proof. repeat split. Qed.
+(* ---------- Part F: the validator of the guard ---------- *)
+Lemma unique_assoc_get_gen {A} (e : list (str * A)) : unique_strs (map fst e) = true ->
+  forall kv, In kv e -> assoc_get (fst kv) e = Some (snd kv).
+Proof.
+  induction e as [|[k v] r IH]; cbn [map fst unique_strs]; [intros _ kv []|].
+  intros H kv Hin. apply andb_true_iff in H. destruct H as [Hk Hr]. cbn [assoc_get].
+  destruct Hin as [<-|Hin]; cbn [fst snd].
+  - rewrite str_eqb_refl. reflexivity.
+  - destruct (str_eqb (fst kv) k) eqn:E.
+    + apply str_eqb_spec in E. subst k. exfalso.
+      apply negb_true_iff in Hk. assert (X : existsb (str_eqb (fst kv)) (map fst r) = true).
+      { apply existsb_exists. exists (fst kv). split; [apply in_map; exact Hin | apply str_eqb_refl]. }
+      rewrite X in Hk. discriminate.
+    + apply IH; assumption.
+Qed.
+
+Lemma assoc_get_In {A} k (a : A) e : assoc_get k e = Some a -> In (k, a) e.
+Proof.
+  induction e as [|[k' v] r IH]; cbn [assoc_get]; [discriminate|].
+  destruct (str_eqb k k') eqn:E.
+  - apply str_eqb_spec in E. subst k'. intros H. injection H as ->. left. reflexivity.
+  - intros H. right. apply IH. exact H.
+Qed.
+
+(* keyword dispatch over a dict with unique keys = looking every key up *)
+Lemma dispatch_lookup (f : str -> json -> bool) (e : jdict) : unique_strs (map fst e) = true ->
+  (forallb (fun kv => f (fst kv) (snd kv)) e = true <-> forall k a, assoc_get k e = Some a -> f k a = true).
+Proof.
+  intros U. rewrite forallb_forall. split.
+  - intros H k a G. apply (H (k, a)). apply assoc_get_In. exact G.
+  - intros H [k a] Hin. cbn [fst snd]. apply H. apply (unique_assoc_get_gen e U (k, a) Hin).
+Qed.
+
+Lemma num_entry_lookup schema k a : forallb num_entry schema = true -> assoc_get k schema = Some a -> num_entry (k, a) = true.
+Proof.
+  intros F G. apply assoc_get_In in G. rewrite forallb_forall in F. apply F. exact G.
+Qed.
+
+(* inside the fragment the truthiness Draft 4 reads is the boolean flag of the specification *)
+Lemma truthy_is_flag schema name :
+  (name = k_exclusiveMinimum \/ name = k_exclusiveMaximum) -> forallb num_entry schema = true ->
+  py_truthy (assoc_get name schema) = excl_flag name schema.
+Proof.
+  intros Hn F. unfold excl_flag. destruct (assoc_get name schema) as [a|] eqn:G; [|reflexivity].
+  pose proof (num_entry_lookup _ _ _ F G) as E. destruct Hn as [-> | ->]; vm_compute in E; destruct a as [|[]| | | |]; try discriminate; reflexivity.
+Qed.
+
+Lemma andb3_true a b c : a && b && c = true <-> a = true /\ b = true /\ c = true.
+Proof. rewrite !andb_true_iff. tauto. Qed.
+
+Lemma guard_validator_is_draft4 schema v : num_fragment schema = true ->
+  guard_is_valid Draft4 schema v = declared_valid schema v.
+Proof.
+  unfold num_fragment. intros H. apply andb_true_iff in H. destruct H as [F U].
+  apply eq_true_iff_eq. unfold guard_is_valid.
+  rewrite (dispatch_lookup (fun k a => guard_keyword Draft4 schema k a v) schema U).
+  unfold declared_valid. rewrite andb3_true.
+  rewrite <- (truthy_is_flag schema k_exclusiveMinimum (or_introl eq_refl) F).
+  rewrite <- (truthy_is_flag schema k_exclusiveMaximum (or_intror eq_refl) F).
+  split.
+  - intros H. repeat split.
+    + destruct (assoc_get k_type schema) as [a|] eqn:G; [|reflexivity]. apply (H _ _ G).
+    + destruct (assoc_get k_minimum schema) as [a|] eqn:G; [|reflexivity]. apply (H _ _ G).
+    + destruct (assoc_get k_maximum schema) as [a|] eqn:G; [|reflexivity]. apply (H _ _ G).
+  - intros [Ht [Hlo Hhi]] k a G. unfold guard_keyword.
+    destruct (str_eqb k k_type) eqn:E1.
+    { apply str_eqb_spec in E1. subst k. rewrite G in Ht. exact Ht. }
+    destruct (str_eqb k k_minimum) eqn:E2.
+    { apply str_eqb_spec in E2. subst k. rewrite G in Hlo. exact Hlo. }
+    destruct (str_eqb k k_maximum) eqn:E3.
+    { apply str_eqb_spec in E3. subst k. rewrite G in Hhi. exact Hhi. }
+    destruct (str_eqb k k_exclusiveMinimum); [reflexivity|].
+    destruct (str_eqb k k_exclusiveMaximum); reflexivity.
+Qed.
+
+Lemma guard_kept_value_invalid schema v : num_fragment schema = true ->
+  guard_keeps Draft4 schema v = true -> declared_valid schema v = false.
+Proof.
+  intros F K. unfold guard_keeps in K. apply negb_true_iff in K.
+  rewrite <- (guard_validator_is_draft4 schema v F). exact K.
+Qed.
+
+(* locations *)
+Lemma forallb_ext_in {A} (f g : A -> bool) l : (forall x, In x l -> f x = g x) -> forallb f l = forallb g l.
+Proof.
+  induction l as [|x r IH]; [reflexivity|]. intros H. cbn [forallb].
+  rewrite (H x (or_introl eq_refl)), IH; [reflexivity|]. intros y Hy. apply H. right. exact Hy.
+Qed.
+
+Lemma location_guard_is_draft4 props req q :
+  forallb (fun p => num_fragment (snd p)) props = true ->
+  location_is_valid (guard_is_valid Draft4) props req q = location_is_valid declared_valid props req q.
+Proof.
+  intros F. unfold location_is_valid. f_equal. apply forallb_ext_in. intros [k v] _. cbn [fst snd].
+  destruct (assoc_get k props) as [s|] eqn:G; [|reflexivity].
+  apply guard_validator_is_draft4. apply assoc_get_In in G. rewrite forallb_forall in F. apply (F (k, s) G).
+Qed.
+
+Lemma location_guard_kept_value_invalid props req q :
+  forallb (fun p => num_fragment (snd p)) props = true ->
+  location_guard_keeps Draft4 props req q = true -> location_is_valid declared_valid props req q = false.
+Proof.
+  intros F K. unfold location_guard_keeps in K. apply negb_true_iff in K.
+  rewrite <- (location_guard_is_draft4 props req q F). exact K.
+Qed.
+
+(* witnesses *)
+(* type number, maximum 100, exclusiveMaximum false *)
+Definition s_max_false : jdict := [(k_type, JStr n_number); (k_maximum, JInt 100); (k_exclusiveMaximum, JBool false)].
+(* type number, minimum 0, exclusiveMinimum true, maximum 10 *)
+Definition s_ratio : jdict := [(k_type, JStr n_number); (k_minimum, JInt 0); (k_exclusiveMinimum, JBool true); (k_maximum, JInt 10)].
+(* type integer, minimum 0 and maximum 50, both exclusive flags false *)
+Definition s_limit : jdict :=
+  [(k_type, JStr n_integer); (k_minimum, JInt 0); (k_exclusiveMinimum, JBool false); (k_maximum, JInt 50); (k_exclusiveMaximum, JBool false)].
+
+(* sentinel, NOT the code: the later-draft reading of the same schema keeps the valid value 0 (0 >= False) *)
+Lemma guard_draft7_sentinel_refuted :
+  num_fragment s_max_false = true /\ guard_keeps Draft7 s_max_false (JInt 0) = true /\
+  declared_valid s_max_false (JInt 0) = true /\ guard_keeps Draft4 s_max_false (JInt 0) = false /\
+  num_fragment s_ratio = true /\ guard_keeps Draft7 s_ratio (JInt 1) = true /\
+  declared_valid s_ratio (JInt 1) = true /\ guard_keeps Draft4 s_ratio (JInt 1) = false /\
+  location_guard_keeps Draft7 [(k_limit, s_limit)] [k_limit] [(k_limit, JInt 26)] = true /\
+  location_is_valid declared_valid [(k_limit, s_limit)] [k_limit] [(k_limit, JInt 26)] = true /\
+  location_guard_keeps Draft4 [(k_limit, s_limit)] [k_limit] [(k_limit, JInt 26)] = false.
+Proof. vm_compute. repeat split. Qed.
+
+(* non-vacuity: the guard of the code does keep values, exactly at the declared bounds *)
+Lemma guard_draft4_nonvacuous :
+  num_fragment s_ratio = true /\ guard_keeps Draft4 s_ratio (JInt 0) = true /\ guard_keeps Draft4 s_ratio (JInt 11) = true /\
+  guard_keeps Draft4 s_ratio (JInt 10) = false /\ guard_keeps Draft4 s_ratio (JStr []) = true /\
+  num_fragment s_limit = true /\ guard_keeps Draft4 s_limit (JInt 51) = true /\ guard_keeps Draft4 s_limit (JInt 0) = false /\
+  forallb (fun p => num_fragment (snd p)) [(k_limit, s_limit)] = true /\
+  location_guard_keeps Draft4 [(k_limit, s_limit)] [k_limit] [(k_limit, JInt (-1))] = true /\
+  location_guard_keeps Draft4 [(k_limit, s_limit)] [k_limit] [] = true.
+Proof. vm_compute. repeat split. Qed.
